@@ -44,7 +44,23 @@ func sampleMessages(r *RNG) [][]byte {
 // hostileBytes: random, mutated from valid messages, or structurally extreme.
 func hostileBytes(r *RNG) []byte {
 	samples := sampleMessages(r)
-	switch r.Intn(10) {
+	switch r.Intn(11) {
+	case 10: // a complete frame of the largest sizes the length fields can announce
+		if r.Chance(1, 2) {
+			l := r.PickInt([]int{0xFFEC, 0xFFE8, 0xFFF0, 0xFFFC})
+			b := make([]byte, 20+l)
+			binary.BigEndian.PutUint16(b[0:2], uint16(r.PickInt([]int{0x0001, 0x0101, 0x0017, 0x0016, 0x001c})))
+			binary.BigEndian.PutUint16(b[2:4], uint16(l))
+			binary.BigEndian.PutUint32(b[4:8], 0x2112A442)
+			copy(b[8:], r.Bytes(64))
+			return b
+		}
+		l := r.PickInt([]int{0xFFFC, 0xFFFF, 0xFFF8, 0xFFFB})
+		b := make([]byte, 4+(l+3)/4*4)
+		binary.BigEndian.PutUint16(b[0:2], uint16(0x4000+r.Intn(4)))
+		binary.BigEndian.PutUint16(b[2:4], uint16(l))
+		copy(b[4:], r.Bytes(64))
+		return b
 	case 0:
 		return r.Bytes(r.PickInt([]int{0, 1, 3, 4, 19, 20, 21, 100, 1500}))
 	case 1: // every class/method pair with a plausible header
@@ -189,7 +205,7 @@ func genC09(p *Plan, r *RNG) {
 		p.Cfg.Listener = "tcp"
 		p.Flavor = "hostile-tcp"
 		cuts, reads := genCuts(r)
-		p.Streams = []StreamCut{{Conn: "*", Cuts: cuts, Reads: reads}}
+		p.Streams = []StreamCut{{Conn: "*", Cuts: cuts, Reads: reads, Coalesce: r.Chance(1, 2)}}
 	}
 	p.Cfg.InboundMTU = r.PickInt([]int{0, 0, 576, 65535})
 	p.Clients = []ClientSpec{
@@ -205,6 +221,9 @@ func genC09(p *Plan, r *RNG) {
 	for i := 0; i < n; i++ {
 		who := r.Pick([]string{"a1", "a1", "c1"})
 		raw := hostileBytes(r)
+		if p.Cfg.Listener != "tcp" && len(raw) > 65507 {
+			raw = raw[:65507] // no datagram is larger
+		}
 		if r.Chance(1, 6) {
 			// hostile bytes at the relay socket
 			p.Ops = append(p.Ops, Op{Actor: "p1", Kind: "peer_send", At: gap(int64(r.Range(1, 500)) * ms), A: OpArgs{Target: "c1", Len: r.PickInt([]int{0, 1, 20, 1600, 1601, 65507}), Content: r.Pick([]string{"stunlike", "chanlike", "stunvalid", "rand"})}})
@@ -227,6 +246,11 @@ func genC09Client(p *Plan, r *RNG) {
 	p.World = "cli"
 	p.Flavor = "hostile-client"
 	p.Cfg = Config{Realm: "sim.realm", LatCSns: int64(r.Range(1, 40))*ms + 3, LatSPns: ms, RTOms: 100, AllocLifeS: 600, Extra: map[string]int64{}}
+	if r.Chance(1, 3) {
+		// the client speaks TURN over a stream: everything arrives through its STUNConn
+		p.Cfg.Extra["stream"] = 1
+		p.Flavor = "hostile-client-stream"
+	}
 	if r.Chance(1, 2) {
 		p.Ops = append(p.Ops, Op{Actor: "app", Kind: "alloc", At: gap(10 * ms)})
 		p.Ops = append(p.Ops, Op{Actor: "app", Kind: "writeto", At: gap(800 * ms), A: OpArgs{Peer: "10.0.2.1:5000", Len: 50}})
@@ -235,7 +259,11 @@ func genC09Client(p *Plan, r *RNG) {
 	}
 	n := r.Range(1, 14)
 	for i := 0; i < n; i++ {
-		raw := hex.EncodeToString(hostileBytes(r))
+		hb := hostileBytes(r)
+		if p.Cfg.Extra["stream"] != 1 && len(hb) > 65507 {
+			hb = hb[:65507]
+		}
+		raw := hex.EncodeToString(hb)
 		a := OpArgs{Raw: raw}
 		if r.Chance(1, 2) {
 			a.Peer = fmt.Sprintf("10.0.3.%d:%d", r.Range(1, 3), 6000+r.Intn(10))
@@ -256,7 +284,7 @@ func genC09Frame(p *Plan, r *RNG) {
 	p.Flavor = "hostile-stream"
 	p.Cfg = Config{LatCSns: int64(r.Range(1, 20)) * ms, LatSPns: ms, Extra: map[string]int64{"hostile": 1}}
 	cuts, reads := genCuts(r)
-	p.Streams = []StreamCut{{Conn: "wr>rd", Cuts: cuts, Reads: reads}}
+	p.Streams = []StreamCut{{Conn: "wr>rd", Cuts: cuts, Reads: reads, Coalesce: r.Chance(1, 2)}}
 	n := r.Range(1, 6)
 	for i := 0; i < n; i++ {
 		p.Ops = append(p.Ops, Op{Kind: "bytes", At: gap(int64(r.PickInt([]int{0, 1, 50})) * ms), A: OpArgs{Raw: hex.EncodeToString(hostileBytes(r))}})
